@@ -57,7 +57,7 @@ def make_loader(sch, opts):
 
 def run_observed(ws, sch, rec, item, loader=None):
     import ZConfig
-    base = ws.materialise(item["files"])
+    base = ws.materialise(item["files"], in_place=item["meta"].get("in_place", False))
     main = os.path.join(base, item["main"])
     flt = None
     if item["meta"].get("fault"):
@@ -400,7 +400,10 @@ def run(chk):
                       {"d/main.conf": ["<mid>", "  %include a.conf", "</mid>"], "d/a.conf": ["bk v1", "%include a.conf"]},
                       {"d/main.conf": ["%include a.conf", "%include a.conf"], "d/a.conf": ["%include b.conf"],
                        "d/b.conf": ["%include main.conf"]}):
-            sc.add(0, files, meta={"shape": "include-cycle"})
+            # ... and the corrected configuration read again through the same loader, from the same URLs
+            fixed = {k: [l for l in v if not l.strip().startswith("%include")] + ["# corrected"] for k, v in files.items()}
+            clean = sc.add(0, fixed, meta={"shape": "clean", "in_place": True})
+            sc.add(0, files, meta={"shape": "include-cycle", "clean": clean})
         for it in sc.items:
             if it["meta"].get("clean") is not None:
                 it["twin"] = None
